@@ -469,6 +469,7 @@ func runR06_3(c *Ctx, r *R) {
 			n++
 			key := fnKey(fn) + "/handler-call"
 			hasRecover, hasFree := false, false
+			var recoverDefer, freeDefer *ssa.Defer
 			for _, c2 := range callsIn(fn, false) {
 				d, ok := c2.(*ssa.Defer)
 				if !ok {
@@ -479,15 +480,18 @@ func runR06_3(c *Ctx, r *R) {
 						for _, c3 := range callsIn(cf, false) {
 							if b, ok := c3.Common().Value.(*ssa.Builtin); ok && b.Name() == "recover" {
 								hasRecover = true
+								recoverDefer = d
 							}
 						}
 					}
 				}
 				if d.Call.IsInvoke() && d.Call.Method.Name() == "Free" {
 					hasFree = true
+					freeDefer = d
 				}
 				if o := calleeObj(d); o != nil && o.Name() == "Free" {
 					hasFree = true
+					freeDefer = d
 				}
 			}
 			switch {
@@ -495,6 +499,9 @@ func runR06_3(c *Ctx, r *R) {
 				r.Bad(key, call.Pos(), "the user handler is invoked without a deferred recover: a handler panic kills the process / the connection instead of ending one channel")
 			case !hasFree:
 				r.Bad(key, call.Pos(), "the channel is not freed (deferred Free) when the handler returns or panics: the peer never sees the channel end")
+			case recoverDefer != nil && freeDefer != nil && !dominatesInstr(recoverDefer, freeDefer):
+				// defers run last-in-first-out: the recover must be registered BEFORE the Free to run AFTER it
+				r.Bad(key, freeDefer.Pos(), "the deferred Free is registered before the deferred recover, so it runs after it: Free panics when the handler has already ended its channel itself ('free called multiple times'), and that panic is no longer recovered - it escapes on a worker goroutine and kills the process")
 			default:
 				r.OK(key, call.Pos(), "handler runs under a deferred recover and the channel is freed on every exit")
 			}
